@@ -215,90 +215,6 @@ func poolTypestateIn(c *core.Ctx, rule, pkgSuffix string) {
 	}
 }
 
-// ---------------------------------------------------------------- R04f
-
-// c04OuterMostOnly: in the stream readers (types of package idr with Read() (*Node, error) whose Read releases a *Node
-// holder field), every store of a non-nil node into that holder is dominated by the edge on which the holder is nil:
-// a candidate is never replaced while it is open, so of nested nodes on the target path only the outermost is one.
-func c04OuterMostOnly(c *core.Ctx) {
-	r12 := resolveC12(c)
-	if r12 == nil {
-		return
-	}
-	n := 0
-	for _, f := range c.RepoFunctions() {
-		if core.FuncPkg(f) != r12.idr || f.Signature.Recv() == nil || f.Name() != "Read" {
-			continue
-		}
-		recv := core.NamedOf(f.Signature.Recv().Type())
-		// holder: *Node field of the reader whose load is released by some method of the reader (Read itself or a helper)
-		var holder *types.Var
-		for _, g := range c.RepoFunctions() {
-			if g.Signature.Recv() == nil || core.NamedOf(g.Signature.Recv().Type()) != recv {
-				continue
-			}
-			for _, ci := range core.Calls(g) {
-				if a := releaseArg(ci, r12, 0); a != nil {
-					if fa := holderLoad(a, r12); fa != nil {
-						if _, isParamBase := fa.X.(*ssa.Parameter); isParamBase {
-							holder = core.FieldOfAddr(fa)
-						}
-					}
-				}
-			}
-		}
-		if holder == nil || recv == nil {
-			continue
-		}
-		// every non-nil store into holder in methods of recv
-		for _, g := range c.RepoFunctions() {
-			if g.Signature.Recv() == nil || core.NamedOf(g.Signature.Recv().Type()) != recv {
-				continue
-			}
-			for _, w := range core.Writes(g) {
-				if w.Kind != "field" || w.Field != holder || core.IsNilConst(w.Val) {
-					continue
-				}
-				n++
-				key := core.FuncKey(g) + " marks candidate"
-				fa := w.Instr.(*ssa.Store).Addr.(*ssa.FieldAddr)
-				ok := false
-				for _, b := range g.Blocks {
-					ifi, isIf := b.Instrs[len(b.Instrs)-1].(*ssa.If)
-					if !isIf {
-						continue
-					}
-					bo, isBo := ifi.Cond.(*ssa.BinOp)
-					if !isBo || !(bo.Op == token.EQL || bo.Op == token.NEQ) {
-						continue
-					}
-					isH := func(v ssa.Value) bool {
-						u, ok := v.(*ssa.UnOp)
-						return ok && u.Op == token.MUL && core.SameValue(u.X, fa)
-					}
-					if !((isH(bo.X) && core.IsNilConst(bo.Y)) || (isH(bo.Y) && core.IsNilConst(bo.X))) {
-						continue
-					}
-					idx := 0
-					if bo.Op == token.NEQ {
-						idx = 1
-					}
-					s := b.Succs[idx]
-					if len(s.Preds) == 1 && s.Dominates(w.Instr.Block()) {
-						ok = true
-					}
-				}
-				c.Check(ok, "R04f", key, w.Pos, "the candidate is marked only on the edge where no candidate is open",
-					"a node is marked as the stream candidate although another candidate may still be open: a nested node on the target path replaces the outer one, which is then never delivered")
-			}
-		}
-	}
-	if n == 0 {
-		c.Unresolved("R04f", "candidate marking", "no store into a stream reader's holder found")
-	}
-	c.Floor("R04f", 2, "streamCandidateCheck of the XML and JSON stream readers")
-}
-
 // ---------------------------------------------------------------- R09c / R09d
 
 func c09RawReads(c *core.Ctx) {
